@@ -225,18 +225,38 @@ theorem bound_empty : Bound {} := by
 
 variable (valid : String → Bool)
 
-theorem bound_link (s : Store) (kid n v : String) (h : Bound s) : Bound (link s kid n v) := by
-  intro kid' k hp
-  unfold link Store.pubd at hp
-  simp only [alGet_del] at hp
-  by_cases e : kid' = kid
-  · simp [e] at hp
-  · simp only [e, if_false] at hp
-    obtain ⟨r, hr, hk⟩ := h kid' k hp
-    refine ⟨r, ?_, hk⟩
-    unfold link Store.ref
-    simp only [alGet_put, e, if_false]
-    exact hr
+theorem saveRef_ok (s : Store) (kid : String) (r : KeyRef) (s1 : Store) (h : saveRef s kid r = .ok s1) :
+    s1 = { s with refs := alPut s.refs kid r } := by
+  unfold saveRef at h
+  split at h
+  · cases h
+  · cases h; rfl
+
+theorem bound_link (s : Store) (kid n v : String) (h : Bound s) : Bound (link s kid n v).1 := by
+  unfold link
+  cases hs : saveRef s kid { keyName := n, version := v } with
+  | error e => exact h
+  | ok s1 =>
+    simp only
+    have := saveRef_ok s kid _ s1 hs
+    subst this
+    intro kid' k hp
+    unfold Store.pubd at hp
+    simp only [alGet_del] at hp
+    by_cases e : kid' = kid
+    · simp [e] at hp
+    · simp only [e, if_false] at hp
+      obtain ⟨r, hr, hk⟩ := h kid' k hp
+      refine ⟨r, ?_, hk⟩
+      unfold Store.ref
+      simp only [alGet_put, e, if_false]
+      exact hr
+
+theorem link_backend (s : Store) (kid n v : String) : (link s kid n v).1.backend = s.backend := by
+  unfold link
+  cases hs : saveRef s kid { keyName := n, version := v } with
+  | error e => rfl
+  | ok s1 => simp only; rw [saveRef_ok s kid _ s1 hs]
 
 theorem bound_migrateOne (s : Store) (name : String) (h : Bound s) : Bound (migrateOne s name) := by
   unfold migrateOne
@@ -245,7 +265,9 @@ theorem bound_migrateOne (s : Store) (name : String) (h : Bound s) : Bound (migr
   · exact bound_link s name name "1" h
 
 theorem migrateOne_backend (s : Store) (name : String) : (migrateOne s name).backend = s.backend := by
-  unfold migrateOne; split <;> rfl
+  unfold migrateOne; split
+  · rfl
+  · exact link_backend s name name "1"
 
 theorem bound_migrate (s : Store) (h : Bound s) : Bound (migrate s) := by
   unfold migrate
@@ -327,23 +349,30 @@ theorem bound_new (s : Store) (name : String) (naming : Option String) (hf : Fre
   | none => exact h1
   | some kid =>
     simp only
-    intro kid' k hp
-    unfold Store.pubd at hp
-    simp only [alGet_put] at hp
-    by_cases e : kid' = kid
-    · simp only [e, if_true] at hp
-      cases hp
-      refine ⟨{ keyName := name, version := "1" }, ?_, ?_⟩
-      · unfold Store.ref; simp [alGet_put, e]
-      · intro k' hk'
-        unfold Store.key at hk'
-        simpa [alGet_put] using hk'.symm
-    · simp only [e, if_false] at hp
-      obtain ⟨r, hr, hk⟩ := h1 kid' k hp
-      refine ⟨r, ?_, hk⟩
-      unfold Store.ref
-      simp only [alGet_put, e, if_false]
-      exact hr
+    cases hs : saveRef { s with nextKey := s.nextKey + 1, backend := alPut s.backend name s.nextKey } kid
+        { keyName := name, version := "1" } with
+    | error e => exact h1
+    | ok s2 =>
+      simp only
+      have := saveRef_ok _ kid _ s2 hs
+      subst this
+      intro kid' k hp
+      unfold Store.pubd at hp
+      simp only [alGet_put] at hp
+      by_cases e : kid' = kid
+      · simp only [e, if_true] at hp
+        cases hp
+        refine ⟨{ keyName := name, version := "1" }, ?_, ?_⟩
+        · unfold Store.ref; simp [alGet_put, e]
+        · intro k' hk'
+          unfold Store.key at hk'
+          simpa [alGet_put] using hk'.symm
+      · simp only [e, if_false] at hp
+        obtain ⟨r, hr, hk⟩ := h1 kid' k hp
+        refine ⟨r, ?_, hk⟩
+        unfold Store.ref
+        simp only [alGet_put, e, if_false]
+        exact hr
 
 theorem bound_step (s : Store) (op : Op)
     (hf : match op with | .new n _ => FreshName s n | _ => True) (h : Bound s) : Bound (step valid s op) := by
